@@ -164,6 +164,8 @@ pub enum Top {
     Sudo { addr: String, script: Script, helper: bool },
     SetBlock { height: u64, time_nanos: u64, chain_id: String, next: bool },
     QueryBattery,
+    /// `App::update_block` with a closure that changes some of the fields only (possibly not the height)
+    BumpBlock { dh: u64, dt_nanos: u64, chain_id: Option<String> },
     /// a write (or removal) through `App::contract_storage_mut`: it lands in that contract's key space and nowhere else
     Poke { addr: String, key: Binary, value: Option<Binary> },
 }
@@ -537,6 +539,41 @@ impl World {
                     Err(e) => d.push(Disc { props: vec!["C10"], sig: "smart-query-failed".into(), detail: format!("contract {}: {}", addr, e) }),
                 }
             }
+            // bounded ranges in both orders, advanced past some records: through the contract's query entry point
+            // (a read-only view) and through App's read-only accessor
+            if !want.is_empty() {
+                let i = rep.count("e1/accessors/contracts_compared") as usize;
+                let pick = |j: usize| want[(i + j) % want.len()].0.clone();
+                for (start, end, desc, skip) in [(Some(pick(0)), None, true, 0usize), (None, Some(pick(1)), true, 1), (Some(pick(2)), Some(pick(3)), i % 2 == 0, 0), (None, None, true, i % 3)] {
+                    let mut exp: Vec<(Vec<u8>, Vec<u8>)> = want.iter().filter(|(k, _)| start.as_ref().map_or(true, |s| k >= s) && end.as_ref().map_or(true, |e| k < e)).cloned().collect();
+                    if desc {
+                        exp.reverse();
+                    }
+                    let exp: Vec<(Vec<u8>, Vec<u8>)> = exp.into_iter().skip(skip).collect();
+                    let order = if desc { Order::Descending } else { Order::Ascending };
+                    let acc: Vec<(Vec<u8>, Vec<u8>)> = self.app.contract_storage(&a).range(start.as_deref(), end.as_deref(), order).skip(skip).collect();
+                    rep.bump("e1/accessors/bounded_ranges_compared");
+                    let mut stop = false;
+                    if acc != exp {
+                        d.push(Disc { props: vec!["C08"], sig: "contract-storage-accessor-range-differs".into(), detail: format!("contract {}: range({:?},{:?},{:?}).skip({}) yields {} records, the storage has {}", addr, start.as_ref().map(|x| rawstate::show(x)), end.as_ref().map(|x| rawstate::show(x)), order, skip, acc.len(), exp.len()) });
+                        stop = true;
+                    }
+                    if self.model.codes.contains_key(&c.code_id) {
+                        let q = PuppetQuery::Range { start: start.clone().map(Binary::from), end: end.clone().map(Binary::from), desc, skip: skip as u32 };
+                        let got: Result<(u32, Vec<(Binary, Binary)>), _> = self.app.wrap().query_wasm_smart(addr.clone(), &q);
+                        if let Ok((_, v)) = got {
+                            let v: Vec<(Vec<u8>, Vec<u8>)> = v.into_iter().map(|(k, v)| (k.to_vec(), v.to_vec())).collect();
+                            if v != exp {
+                                d.push(Disc { props: vec!["C10", "C08"], sig: "smart-query-range-differs-from-contract-storage".into(), detail: format!("contract {}: its query entry point reads range({:?},{:?},{:?}).skip({}) as {} records, the storage has {}", addr, start.as_ref().map(|x| rawstate::show(x)), end.as_ref().map(|x| rawstate::show(x)), order, skip, v.len(), exp.len()) });
+                                stop = true;
+                            }
+                        }
+                    }
+                    if stop {
+                        break;
+                    }
+                }
+            }
             // a key the contract never wrote
             let absent = b"\x00never-written".to_vec();
             if !c.storage.contains_key(&absent) {
@@ -695,6 +732,34 @@ impl World {
                     (Ok(Err(_)), None) => {}
                     (Ok(Ok(g)), None) => discs.push(Disc { props: vec!["C11"], sig: "duplicate-of-missing-code-accepted".into(), detail: format!("{:?}: {}", op, g) }),
                     (Ok(Err(e)), Some(_)) => discs.push(Disc { props: vec!["C11"], sig: "duplicate-code-rejected".into(), detail: format!("{:?}: {}", op, e) }),
+                }
+                (discs, None)
+            }
+            Top::BumpBlock { dh, dt_nanos, chain_id } => {
+                let r = catch(|| {
+                    self.app.update_block(|b| {
+                        b.height += *dh;
+                        b.time = b.time.plus_nanos(*dt_nanos);
+                        if let Some(c) = chain_id {
+                            b.chain_id = c.clone();
+                        }
+                    })
+                });
+                if let Err(p) = r {
+                    discs.push(Disc { props: vec!["C14", "C05"], sig: "block-update-panics".into(), detail: p });
+                }
+                // what the closure produced is the current block, whichever fields it touched
+                let (h, t, c) = self.model.block.clone();
+                self.model.block = (h + dh, t + dt_nanos, chain_id.clone().unwrap_or(c));
+                let shown = block_tuple(&self.app.block_info());
+                rep.bump("e1/block_changes");
+                rep.bump(if *dh == 0 { "e1/block_changes/same_height" } else { "e1/block_changes/partial" });
+                if shown != self.model.block {
+                    discs.push(Disc { props: vec!["C05"], sig: "block-info-differs-from-what-update-block-produced".into(), detail: format!("block_info() = {:?}, expected {:?}", shown, self.model.block) });
+                    self.model.block = shown;
+                }
+                if let Some(t) = self.transcript.as_mut() {
+                    t.push(format!("block {:?}", self.model.block));
                 }
                 (discs, None)
             }
